@@ -13,7 +13,10 @@ G: every finished object of the Versions writer is concretised from the chunks t
    look-ups in ascending / descending / repeated order, has_indexes, num_versions, complete iterations
    and the steps of one open iteration, interleaved; all call pairs (quick) / triples (thorough) over a
    small alphabet on small objects) is replayed call by call on ONE fresh section object and every
-   answer is compared with the answer the specification logged for that call.
+   answer is compared with the answer the specification logged for that call.  File sessions (StartFileSession)
+   address the three version section objects of ONE file object, whose stream they share: the version-symbol
+   iteration interleaved with look-ups / iterations on the other two sections and with the client repositioning
+   the stream.
 T: for every ELF of the test corpus that has version sections the entries and auxiliaries are
    recorded in yield order, together with the raw bytes of the section and of its linked tables;
    spec/trace/VersionsTrace.tla runs the chain machine of Versions.tla on the raw bytes and checks
@@ -282,6 +285,71 @@ def _run_session(ef_open, exp, session, bad):
             return                  # the first wrong answer of a session is the finding; later ones are consequences
 
 
+def _run_file_session(ef_open, exp, session, voc, bad):
+    """One file session of the specification: the three version section objects of ONE file object (one shared stream);
+    each call's answer against the logged one.  `seek` is the client repositioning that stream between calls."""
+    try:
+        ef = ef_open()
+        secs = {'d': ef.get_section(exp['idx']['verdef']), 'n': ef.get_section(exp['idx']['verneed']),
+                's': ef.get_section(exp['idx']['versym'])}
+    except Exception as ex:   # noqa
+        bad('open', 'ELFFile + version sections', 'exc:%s:%s' % (type(ex).__name__, ex))
+        return
+    kinds = {'d': 'def', 'n': 'need'}
+    expc = {c: _exp_chain(exp[k], k) for c, k in kinds.items()}
+    view = exp['versym']
+    its = {}
+
+    def sym_verdict(get, k, j):
+        """(want, got) of a call that returns version symbol k (1-based; 0: nothing)."""
+        s = get()
+        if k == 0:
+            return None, None if s is None else {'ndx': s.entry['ndx'], 'sym': s.name}
+        v = view[k - 1]
+        want = {'i': k - 1, 'ndx': v['ndx'], 'names': v['names'], 'sym': _name(v['sym'])}
+        if s is None:
+            return want, None
+        ok = enum_verdict(s.entry['ndx'], v['ndx'], v['names'], voc) is not False and s.name == want['sym']
+        return want, want if ok else {'i': k - 1, 'ndx': s.entry['ndx'], 'sym': s.name}
+    for n, (op, q, k, j) in enumerate(session['log']):
+        c = op[0]
+        if op in ('sstep', 'sget') and k and view[k - 1]['ndx'] != j:
+            raise core.MachineryError('session log and view disagree on versym[%d]' % k)
+        if op == 'seek':
+            size = ef.stream.seek(0, 2)                       # q: 0 = start, 1 = end, 2 = middle of the file
+            ef.stream.seek({0: 0, 1: size, 2: size // 2}[q])
+            continue
+        if op in ('sopen', 'dopen', 'nopen'):
+            its[c] = secs[c].iter_symbols() if c == 's' else secs[c].iter_versions()
+            continue
+        if op == 'sstep':
+            r = _safe(sym_verdict, lambda: next(its['s'], None), k, j)
+            want, got = r if isinstance(r, tuple) else ('symbol %d' % k, r)
+        elif op == 'sget':
+            r = _safe(sym_verdict, lambda: secs['s'].get_symbol(q), k, j)
+            want, got = r if isinstance(r, tuple) else ('symbol %d' % k, r)
+        elif op == 'snum':
+            want, got = k, _safe(secs['s'].num_symbols)
+        elif op in ('dget', 'nget'):
+            want, got = _want_lookup(kinds[c], expc[c], k, j), _safe(_lookup, secs[c], kinds[c], expc[c], q, k, j)
+        else:                       # dstep / nstep: the next entry with its whole auxiliary chain
+            want = None if k == 0 else [expc[c][k - 1][0], expc[c][k - 1][1], expc[c][k - 1][2][:j]]
+
+            def advance():
+                p = next(its[c], None)
+                if p is None:
+                    return None
+                v, auxit = p
+                pos = max(k - 1, 0)
+                return _obs_entry(v, _ent_fields(expc[c], pos), kinds[c]) + \
+                    [[_obs_aux(a, _aux_fields(expc[c], pos, m)) for m, a in enumerate(_take(auxit))]]
+            got = _safe(advance)
+        if got != want:
+            bad('file.session.%s' % op, {'call': n, 'op': op, 'arg': q, 'answer': want, 'after': session['log'][:n]},
+                {'call': n, 'answer': got})
+            return                  # the first wrong answer of a session is the finding; later ones are consequences
+
+
 def _check_versym(run, sec, view, voc, bad):
     n = _safe(sec.num_symbols)
     if n != len(view):
@@ -360,10 +428,14 @@ def _replay_case(run, case, ELFFile, voc, classes):
     # client sessions: each on a section object of its own (of a file object of its own)
     for session in case.get('sessions', ()):
         def sbad(clause, e, o, session=session):
-            run.mismatch(clause, 'session/%s/%s' % (session['disc'], tag.split('/')[2]), dict(brief, session=session), e, o)
+            run.mismatch(clause, 'session/%s%s/%s' % ('file-' if session['kind'] == 'file' else '', session['disc'], tag.split('/')[2]),
+                         dict(brief, session=session), e, o)
         with core.guard(20):
             try:
-                _run_session(lambda: ELFFile(io.BytesIO(data)), exp, session, sbad)
+                if session['kind'] == 'file':
+                    _run_file_session(lambda: ELFFile(io.BytesIO(data)), exp, session, voc, sbad)
+                else:
+                    _run_session(lambda: ELFFile(io.BytesIO(data)), exp, session, sbad)
             except core.CallTimeout:
                 sbad('session.timeout', 'an answer', 'no answer within 20 s')
 
@@ -539,7 +611,8 @@ def check(run):
                 'order x container arrangement; versym tables of several lengths); non-trivial = at least one definition or '
                 'requirement entry, or a versym table longer than the null symbol; distinct by emitted bytes.  T cases = one '
                 'trace per version section of the corpus ELFs; non-trivial = the section yields at least one record.  '
-                'Client sessions (call sequences on one section object) are part of their object\'s case; their number is in extra')
+                'Client sessions (call sequences on one section object, or on the three section objects of one file object) are part '
+                'of their object\'s case; their number is in extra')
     run.assumptions += ['well-formed version sections only: counts agree with the chains, the last next displacement is 0, '
                         'displacements are forward (the fields are unsigned), no two entries carry the same index',
                         'hash fields carry arbitrary words, not the ELF hash of the name',
@@ -563,7 +636,8 @@ def check(run):
         run.count(key, nontrivial=nontriv, sample=sample)
         _replay_case(run, case, ELFFile, voc, classes)
         for ses in case['sessions']:
-            nsess[ses['disc']] = nsess.get(ses['disc'], 0) + 1
+            dn = ('file-' if ses['kind'] == 'file' else '') + ses['disc']
+            nsess[dn] = nsess.get(dn, 0) + 1
             ncalls[0] += len(ses['log'])
     run.validated = run.evaluations
     if run.evaluations == 0:
